@@ -241,7 +241,7 @@ def dims_of(part):
 
 
 def _sched_body(idx):
-    w1, x1, w2 = decode_point(idx, dims_of(P))
+    w1, x1, w2 = decode_point(idx, dims_of)
     return N._untraced(_schedule)(P.maxsize, P.block, P.script, P.other, w1, x1, w2)
 
 
@@ -393,6 +393,9 @@ def c02_sched(idx: int) -> bool:
     post: _
     """
     return run(_sched_body, idx)
+
+
+DIMS = {"c02_sched": dims_of}
 
 
 def JOBS(tier):
